@@ -179,28 +179,31 @@ def t5(chk, i):
     from pyvc.report import run_replay
     from .C20_oracle import ORACLE, DRIVER
     e = mk_engine(chk)
-    m = e.module(QM)
     gates = []
-    for node in m.tree.body:
-        if not isinstance(node, ast.FunctionDef):
-            continue
-        doc = ast.get_docstring(node) or ""
-        try:
-            mat = latex_matrix(doc)
-        except Exception:  # noqa
-            mat = None
-        if mat is None:
-            continue
-        params = [a.arg for a in node.args.args]
-        angs = [p_ for p_ in params if p_.startswith("angle")]
-        nq = len(params) - len(angs)
-        if 2 ** nq != mat.shape[0] or len(angs) > 1:
-            continue
-        for val in (ANGLES if angs else [None]):
-            num = mat.subs(th, val * sp.pi) if val is not None else mat
-            gates.append({"name": node.name, "nq": nq, "angles": [val] if val is not None else [],
-                          "matrix": [[[float(sp.re(sp.N(c, 30))), float(sp.im(sp.N(c, 30)))] for c in num.row(r)] for r in range(num.rows)]})
-    chk.record(f"bounded[{i}/{NCH_B}]:gate-functions-with-a-documented-matrix", len({g["name"] for g in gates}) >= 18, str(sorted({g["name"] for g in gates})), kind="reachability")
+    for modname, prefix in ((QM, ""), (QS, "qsystem.")):
+        m = e.module(modname)
+        for node in m.tree.body:
+            if not isinstance(node, ast.FunctionDef) or node.name.startswith("_"):
+                continue
+            doc = ast.get_docstring(node) or ""
+            try:
+                mat = latex_matrix(doc)
+            except Exception:  # noqa
+                mat = None
+            if mat is None:
+                continue
+            params = [a.arg for a in node.args.args]
+            angs = [p_ for p_ in params if p_.startswith("angle")]
+            nq = len(params) - len(angs)
+            if 2 ** nq != mat.shape[0] or len(angs) > 2 or params[:nq] != [p_ for p_ in params if not p_.startswith("angle")]:
+                continue
+            syms = [th] if len(angs) == 1 else [th1, th2]
+            vals = [[v] for v in ANGLES] if len(angs) == 1 else [[a, b] for a in ANGLES[:3] for b in ANGLES[1:]] if angs else [[]]
+            for val in vals:
+                num = mat.subs({sy: v * sp.pi for sy, v in zip(syms, val)}, simultaneous=True)
+                gates.append({"name": prefix + node.name, "nq": nq, "angles": list(val),
+                              "matrix": [[[float(sp.re(sp.N(c, 30))), float(sp.im(sp.N(c, 30)))] for c in num.row(r)] for r in range(num.rows)]})
+    chk.record(f"bounded[{i}/{NCH_B}]:gate-functions-with-a-documented-matrix", len({g["name"] for g in gates}) >= 22, str(sorted({g["name"] for g in gates})), kind="reachability")
     res = run_replay(ORACLE + DRIVER, {"gates": gates, "chunk": i, "nchunks": NCH_B}, chk.repo, timeout=6000)
     if "evaluations" not in res:
         chk.undecided(f"bounded[{i}/{NCH_B}]:circuits", "oracle run failed: " + json.dumps(res)[:800])
@@ -329,12 +332,26 @@ def t3(chk):
             return o
         AC.attrs["__truediv__"] = Builtin("div", lambda s, k: mk_angle(s.fields["h"] / k))
         AC.attrs["__mul__"] = Builtin("mul", lambda s, k: mk_angle(s.fields["h"] * k))
-        AC.attrs["__float__"] = Builtin("float", lambda s: ("radians", s.fields["h"] * sp.pi))
+        AC.attrs["__float__"] = Builtin("float", lambda s: mk_rad(s.fields["h"] * sp.pi))
+        RC = ClassVal("radians", builtin=True)
+
+        def val(x):
+            return x.fields["r"] if isinstance(x, SObj) and x.cls is RC else sp.nsimplify(x)
+
+        def mk_rad(r):
+            # a float holding radians: arithmetic a body may apply to it is carried out exactly
+            o = SObj(RC, {"r": sp.nsimplify(r)})
+            o.fields["__neg__"] = Builtin("neg", lambda o=o: mk_rad(-o.fields["r"]))
+            o.fields["__pos__"] = Builtin("pos", lambda o=o: o)
+            return o
+        for nm, f in (("__add__", lambda a, b: a + b), ("__sub__", lambda a, b: a - b), ("__mul__", lambda a, b: a * b), ("__truediv__", lambda a, b: a / b)):
+            RC.attrs[nm] = Builtin(nm, lambda s_, k, f=f: mk_rad(f(val(s_), val(k))))
+            RC.attrs["__r" + nm[2:]] = Builtin("r" + nm, lambda s_, k, f=f: mk_rad(f(val(k), val(s_))))
 
         def t(it):
             fr_globals = it.ctx.mod_globals(m)
             fr_globals["pi"] = mk_angle(1)
-            fr_globals["float"] = Builtin("float", lambda a: ("radians", a.fields["h"] * sp.pi))
+            fr_globals["float"] = Builtin("float", lambda a: mk_rad(a.fields["h"] * sp.pi))
             for g in ("ry", "rx", "rz", "cz", "cx", "h", "zz_phase", "_phased_x", "_zz_phase", "_rz"):
                 if g != fname:
                     fr_globals[g] = Builtin(g, lambda *a, g=g: calls.append((g, a)))
@@ -378,7 +395,7 @@ def t3(chk):
                 return z3.BoolVal(False)
             args = p.value[0][1]
             want = [("qubit", q) if not q.startswith("angle") else ("radians", sp.Symbol("h_" + q) * sp.pi) for q in params]
-            return z3.BoolVal(len(args) == len(want) and all((a == w) if a[0] == "qubit" else (a[0] == "radians" and sp.simplify(a[1] - w[1]) == 0) for a, w in zip(args, want)))
+            return z3.BoolVal(len(args) == len(want) and all((a == w) if w[0] == "qubit" else (isinstance(a, SObj) and a.cls.name == "radians" and sp.simplify(a.fields["r"] - w[1]) == 0) for a, w in zip(args, want)))
         chk.prove_paths(f"qsystem.{fname}:forwards-the-qubits-in-order-and-each-angle-in-radians(halfturns*pi)-to-{op}", paths, post, func=f"{QS}:{fname}")
     chk.use_engine(e)
 
